@@ -51,6 +51,7 @@ type Cfg struct {
 	MaxReverts   int      `json:"max_reverts,omitempty"`   // volume reverts per path (0 = 1)
 	ViaRPC       bool     `json:"via_rpc,omitempty"`       // every backend's data path is the real rpc.Client -> loopback TCP -> rpc.Server -> node
 	RealAgent    bool     `json:"real_agent,omitempty"`    // file transfers are launched by jiva\'s real sync agent (process table, port allocator, exit codes); the ssync child is the harness binary
+	PrefixNames  bool     `json:"prefix_names,omitempty"`  // volume snapshots are named u1, u11, u111, ...: every older name is a prefix of every newer one
 	SigTag       string   `json:"sig_tag,omitempty"`       // appended to every violation signature of the run: names the pre-history, so that a known finding of this history does not hide the same oracle failing elsewhere
 	AgentPorts   int      `json:"agent_ports,omitempty"`   // size of each real agent\'s port range (default 100)
 	MaxRetries   int      `json:"max_retries,omitempty"`   // retry ticks of the registration loops per path (Boot/StepB)
